@@ -245,7 +245,8 @@ def member_args(shape, m, case):
     if n == "compute_form_factor_amplitude":
         return [rng.normal(size=(4, 3)) / max(size, 1e-3)]
     if n == "distance_to_surface":
-        return [rng.uniform(-1.0, 7.0, size=6)]
+        # always some angles outside [0, 2 pi): an in-place range reduction must show
+        return [np.concatenate([[-0.75, 6.9, 2 * np.pi], rng.uniform(0.0, 6.0, size=3)])]
     if n == "get_face_area":
         return [] if m.variant == "none" else ([np.array([0, 1])] if m.variant == "ids" else [[0, 1]])
     if n == "get_dihedral":
@@ -360,8 +361,12 @@ def same(a, b, rel, floor=0.0):
         x, y = a[3], b[3]
         if x.dtype.kind in "OSU" or y.dtype.kind in "OSU":
             return bool(np.array_equal(x, y))
+        if x.dtype.kind in "biu" and y.dtype.kind in "biu":
+            return bool(np.array_equal(x, y))
         if rel == 0:
             return bool(np.array_equal(x, y, equal_nan=x.dtype.kind in "fc"))
+        x = x.astype(complex if "c" in (x.dtype.kind, y.dtype.kind) else float)
+        y = y.astype(x.dtype)
         fin = np.isfinite(x) & np.isfinite(y)
         if not np.array_equal(np.isfinite(x), np.isfinite(y)):
             return False
@@ -986,7 +991,11 @@ def eval_case(ctx, case):
             refB = reference(case, keyB, tmpdir)
             b1 = t.run_member(B)
             relB = tol_for(B, t.moved, t, case)
-            if not same(b1, refB, relB, t.Ls):
+            if not same(b1, refB, relB, t.Ls) and B.name in RANDOM_RETRY and t.moved:
+                # miniball's pivoting / the random retry may take another path on vertices that moved by an
+                # ulp; the value of the bounding ball is property C13's business
+                ctx.count("random-retry-differs-after-move")
+            elif not same(b1, refB, relB, t.Ls):
                 t.fail(keyA, "changes-answer-of:" + keyB,
                        "after this query another member answers differently than on an untouched twin",
                        [brief(b1), brief(refB)])
@@ -998,7 +1007,9 @@ def eval_case(ctx, case):
                 ref = reference(case, m.key, tmpdir)
                 ans, _ = call_member(t.shape, m, case, tmpdir)
                 rel = tol_for(m, t.moved, t, case)
-                if not same(canon(ans), ref, rel, t.Ls):
+                if not same(canon(ans), ref, rel, t.Ls) and m.name in RANDOM_RETRY and t.moved:
+                    ctx.count("random-retry-differs-after-move")
+                elif not same(canon(ans), ref, rel, t.Ls):
                     t.fail(keyA, "observable-changed:" + m.key,
                            "after this query the public observable differs from the untouched twin",
                            [brief(canon(ans)), brief(ref)])
